@@ -2,10 +2,10 @@
 from vf.core import *
 ROOTS = ['vf_sb_globals', 'vf_sb_conn_init', 'vf_sb_init', 'vf_sb_batchbuf_len', 'vf_sb_msg_init', 'vf_sb_msg_custom', 'vf_sb_msg_noinc',
          'vf_sb_msg_eob', 'vf_sb_msg_type', 'vf_fld_num', 'vf_fld_uint', 'vf_fld_bool', 'vf_fld_time', 'vf_fld_set_time',
-         'vf_sb_send_p', 'vf_sb_send_r', 'vf_sb_send_batch', 'vf_sb_vec_set', 'vf_sb_update_persist', 'vf_sb_recover',
+         'vf_sb_send_p', 'vf_sb_send_r', 'vf_sb_send_batch', 'vf_sb_vec_set', 'vf_sb_update_persist', 'vf_sb_recover', 'vf_sb_resend_request', 'vf_sb_retrans', 'vf_sb_rctx_init', 'vf_sb_rctx_nomore', 'vf_sb_get_next_send', 'vf_fld_set_int', 'vf_fld_int',
          # shims/sess_common.cpp
          'vf_sess_set_seq', 'vf_sess_set_state', 'vf_sess_set_ptrs', 'vf_sess_set_flags', 'vf_sess_set_sid', 'vf_sess_next_send', 'vf_sess_next_recv', 'vf_sess_state']
-PROVIDED = ['_ZNK4FIX87Message6encodeEPPc', '_ZN4FIX811MessageBase6removeEt', 'vf_rec_put', 'vf_rec_putc', 'vf_rec_getc', 'vf_msg_is_admin']
+PROVIDED = ['_ZN4FIX87Message7factoryERKNS_10F8MetaCntxERKNSt7__cxx1112basic_stringIcSt11char_traitsIcESaIcEEEbb', 'vf_rec_range', '_ZNK4FIX87Message6encodeEPPc', '_ZN4FIX811MessageBase6removeEt', 'vf_rec_put', 'vf_rec_putc', 'vf_rec_getc', 'vf_msg_is_admin']
 FUN_SEND = ['FIX8::Session::send(Message*,bool,unsigned,bool)', 'Session::send(Message&,unsigned,bool)', 'Session::send_batch', 'Session::send_process',
             'Session::update_persist_seqnums', 'Session::recover_seqnums', 'Session::modify_header', 'Session::modify_outbound',
             'Connection::write(Message*,bool)', 'Connection::write(Message&)', 'Connection::write_batch', 'Connection::send',
@@ -24,3 +24,33 @@ def build(ctx, name='sessb', extra_roots=(), extra_provided=(), defines=()):
     info = ctx.translate(ll, ROOTS + list(extra_roots), 'sessb.c', stubfiles=['common.stubs', 'sessb.stubs'], models=['cxx.c', 'stubs.c', 'sessb_env.c'],
                          provided=PROVIDED + list(extra_provided))
     return info
+
+# ---------------------------------------------------------------- native replay (real Session + ClientConnection over loopback TCP, libfix8.so + libutest.so)
+def native_driver(ctx):
+    return ctx.native('sessb_replay', ['replay/sessb_replay.cpp'], flags=('-O1', '-fno-access-control', '-I' + REPO + '/utests'),
+                      libs=['-L' + REPO + '/runtime/.libs', '-lfix8', '-L' + REPO + '/utests/.libs', '-lutest',
+                            '-Wl,-rpath,' + REPO + '/runtime/.libs', '-Wl,-rpath,' + REPO + '/utests/.libs'])
+
+def _lst(c, k, n):
+    v = c.get(k, [])
+    if not isinstance(v, list): v = [v]
+    return [int(x) for x in v] + [0] * (n - len(v))
+
+def replay_send(ctx, cx, bit):
+    """replays a C16/C17 send scenario; bit 1 = C16 oracle, 2 = C17 oracle"""
+    c = cx.get('cx', cx); exe = native_driver(ctx)
+    j = int(c.get('cx_j', 1)); kind = _lst(c, 'cx_kind', j); p34 = _lst(c, 'cx_pre34', j); p43 = _lst(c, 'cx_pre43', j); orig = _lst(c, 'cx_orig', j)
+    args = [exe, 'send'] + [str(int(c.get(k, 0))) for k in ('cx_n', 'cx_r', 'cx_always', 'cx_persist', 'cx_op', 'cx_j', 'cx_destroy', 'cx_custom', 'cx_noinc')]
+    for i in range(j): args += [str(kind[i]), str(p34[i]), str(p43[i]), str(orig[i] if orig[i] else 1)]
+    r = sh(args, timeout=60)
+    if r.returncode >= 64 or r.returncode < 0: return False, 'driver problem rc=%s: %s' % (r.returncode, r.stdout.strip()[-300:])
+    return bool(r.returncode & bit), r.stdout.strip()[-400:].replace('\n', ' | ')
+
+def replay_resend(ctx, cx):
+    c = cx.get('cx', cx); exe = native_driver(ctx)
+    has = _lst(c, 'cx_has', 0)[1:]
+    while has and len(has) > 1 and has[-1] == 0 and len(has) > int(c.get('cx_n', 1)): has.pop()
+    args = [exe, 'resend'] + [str(int(c.get(k, 0))) for k in ('cx_n', 'cx_B', 'cx_E', 'cx_persist')] + [str(h) for h in has]
+    r = sh(args, timeout=60)
+    if r.returncode >= 64 or r.returncode < 0: return False, 'driver problem rc=%s: %s' % (r.returncode, r.stdout.strip()[-300:])
+    return bool(r.returncode & 4), r.stdout.strip()[-400:].replace('\n', ' | ')
